@@ -109,9 +109,9 @@ SPEC = {
              'half-chains on either side; simplify never increases a width. distinct = (model or kind, L, size).'),
     'deciding': ['model.bond-dims==schmidt-ranks', 'chains.bond-dim<=number-of-chains', 'simplify.no-bond-increase'],
     'workloads': [
-        Workload('models', model_case, quick=150, thorough=2700),
-        Workload('chains', chains_case, quick=600, thorough=20000),
-        Workload('simplify', random_graph_case, quick=300, thorough=10000),
+        Workload('models', model_case, quick=300, thorough=16200),
+        Workload('chains', chains_case, quick=1800, thorough=200000),
+        Workload('simplify', random_graph_case, quick=900, thorough=100000),
     ],
     'shards': {'quick': 4, 'thorough': 16},
     'assumptions': ['operator Schmidt rank from numpy SVD of the reshaped dense operator with relative threshold 1e-9; parameters generic by construction'],
